@@ -13,7 +13,7 @@ def gen_cases(rng, n):
     """Integer (dyadic after scaling) cost tables: exact in float64, so TLC can redo the sums."""
     cases = []
     forms = ["vector", "vector", "vector", "float", "int", "np.float64", "np.float32", "np.int64",
-             "np.int32", "np.uint8"]
+             "np.int32", "np.uint8", "np.float16", "np.longdouble"]
     for idx in range(n):
         kind = idx % 8
         T = rng.choice([1, 2, 3, 4, 5, 6, 8, 12]) if kind < 6 else rng.randint(13, 60)
@@ -43,7 +43,24 @@ def gen_cases(rng, n):
                 beta = (beta % 200) * (2 ** s)         # integer forms cannot carry a fraction
             if form == "np.uint8":
                 beta = (beta // (2 ** s) % 200) * (2 ** s)
+            if form == "np.float16":
+                beta = beta % 1024                        # 11 significant bits
+        # dtype of the TABLE (the kernel must take any real table; it accumulates in float64) and of a per-pair vector:
+        # only dtypes that hold every value of this case exactly
+        small = hi <= 40 and lo >= -40
+        dts = ["float64"] * 4 + ["float32", "longdouble"] + (["float16"] if small else [])
+        tdt = rng.choice(dts + ["int64", "int32"] + (["int16", "int8"] if small and s == 0 else []))
+        if tdt.startswith("int") and s:
+            cost = [[v * (2 ** s) for v in row] for row in cost]      # whole numbers after the 2^-s scaling
+            if max(abs(v) for row in cost for v in row) >= 2 ** 23:
+                tdt = "float64"
+        vdt = "float64"
+        if form == "vector":
+            vdt = rng.choice(dts)
+            if vdt == "float16":
+                beta = [b % 1024 for b in beta]
         cases.append({"fn": "assign", "cost": cost, "beta": beta, "beta_form": form, "scale": s,
+                      "table_dtype": tdt, "vector_dtype": vdt,
                       "order": rng.choice(["C", "C", "F"]), "readonly": rng.random() < 0.3,
                       "T": T, "K": K})
     return cases
@@ -112,10 +129,12 @@ def run(tier):
         if m < const_best:
             nontrivial.add(repr((case["cost"], bv)))
         rep.regime("beta_" + case["beta_form"])
+        rep.regime("table_" + case.get("table_dtype", "float64"))
     rep.cov["distinct_nontrivial"] = len(nontrivial)
     rep.cov["rule"] = ("seeded random integer cost tables scaled by 2^-s (exact in float64): tiny value sets "
                        "(ties), negatives, spreads to 2^20, T in 1..60, K in 1..5, scalar beta in 9 numeric "
-                       "types and per-pair vector beta, C/F order, read-only; each executed in modes "
+                       "types and per-pair vector beta (float16/32/64/longdouble), tables of dtype float16/32/64, longdouble, int8..64, "
+                       "C/F order, read-only; each executed in modes "
                        "jit/nojit/nonumba; non-trivial = distinct tables whose optimum beats every constant "
                        "labelling (needs at least one switch)")
     for gi in list(range(min(3, len(recs)))):
